@@ -397,8 +397,8 @@ func TestVerifActionAPI(t *testing.T) {
 					to = actor
 				}
 				have := g2[actor]
-				if have == 0 && j > 0 && j != failAt {
-					break // the actor is empty: anything more could only fail
+				if have <= 1 && j > 0 && j != failAt && j < na-1 {
+					break // the actor is (nearly) empty: anything more could only fail or shuffle the last token
 				}
 				var v uint64
 				switch c := r.Intn(10); {
@@ -408,7 +408,7 @@ func TestVerifActionAPI(t *testing.T) {
 					v = 0
 				case c < 3 && have > 0 && (to == actor || j == na-1 || j+1 == failAt):
 					v = have // whole balance: record deleted (and re-created when sent to oneself)
-				case c < 5 && have > 1:
+				case c < 5 && have > 1 && j >= na-2:
 					v = have - 1
 				case have > 1:
 					v = 1 + uint64(r.Int63n(int64(have-1)))
